@@ -371,7 +371,7 @@ func TestC05(t *testing.T) {
 	h.Col.Note("uncovered_registered_commands", fmt.Sprint(uncovered))
 
 	names := cmdspec.SortedNames()
-	perCmd := h.N(600, 4000)
+	perCmd := h.N(600, 20000)
 	for _, name := range names {
 		name := name
 		if name == "ZADD" && h.Avoid("zadd-all") {
@@ -399,7 +399,7 @@ func TestC05(t *testing.T) {
 		})
 	}
 
-	h.Rapid("unknown", h.N(2000, 20000), func(rt *rapid.T) {
+	h.Rapid("unknown", h.N(2000, 100000), func(rt *rapid.T) {
 		var name string
 		for {
 			name = string(resp.GenBulkPayload(12).Draw(rt, "name"))
@@ -417,7 +417,7 @@ func TestC05(t *testing.T) {
 		h.Fail(rt, "c05.unknown", c, evalC05Unknown(c))
 	})
 
-	h.Rapid("app-executors", h.N(2000, 20000), func(rt *rapid.T) {
+	h.Rapid("app-executors", h.N(2000, 100000), func(rt *rapid.T) {
 		name := rapid.StringMatching(`[A-Z][A-Z0-9._]{1,10}`).Draw(rt, "appname")
 		if cmdspec.Has(name) {
 			name = "X" + name
